@@ -10,6 +10,8 @@ import z3
 
 from harness import engine, refevm
 
+MODEL_INPUTS = 8
+
 ADDR_POOL = [0x1804C8AB1F12E6BBF3894D4083F33E07309D1F38, 0xC0FFEE, 0xBEEF, 1 << 159, (1 << 160) - 1]
 
 
@@ -323,6 +325,9 @@ def check_scenario(scn, rng, fuel=20000, n_random=4, with_model=False):
         # (an exception escaping SEVM.run aborts the whole test with an ERROR status: no path is
         #  reported, so there is nothing to compare; the crash itself is C06's business)
         # inputs skipped above (reference unsupported / balances above MAX_ETH) have no holder entry
-        model = model_leg(scn, kept_inputs, kept_refs, per_input_holders)
+        # (the extracted model computes on inductive binary integers: a handful of inputs per program is enough
+        #  for the model <-> implementation leg, every input still goes through implementation <-> reference)
+        k = MODEL_INPUTS
+        model = model_leg(scn, kept_inputs[:k], kept_refs[:k], per_input_holders[:k])
     return {"model": model, "n_paths": len(paths), "kinds": [p.kind for p in paths], "n_inputs": len(inputs), "c01": c01, "c02": c02,
             "flags": {k: v for k, v in flags.items() if k != "output"}, "stats": stats}
